@@ -1,0 +1,26 @@
+// Copyright ©2024 The Gonum Authors. All rights reserved.
+// Use of this source code is governed by a BSD-style
+// license that can be found in the LICENSE file.
+
+//go:build !verif
+
+package mat
+
+// Pool kinds passed to the verification hooks. With the verif build tag off
+// the hooks are empty and are inlined away.
+const (
+	verifPoolDense = iota
+	verifPoolSym
+	verifPoolTri
+	verifPoolVec
+	verifPoolFloats
+	verifPoolCDense
+	verifPoolInts
+)
+
+func verifPoolGetF(kind int, data []float64, clear bool) {}
+func verifPoolPutF(kind int, data []float64)             {}
+func verifPoolGetC(data []complex128, clear bool)        {}
+func verifPoolPutC(data []complex128)                    {}
+func verifPoolGetI(data []int, clear bool)               {}
+func verifPoolPutI(data []int)                           {}
